@@ -325,11 +325,17 @@ pub fn synth(raw: &RawSynth, domain: ClockDomain) -> Pos {
     // kings first; castling profile keeps them at home most of the time
     let (mut wk, mut bk) = (raw.wk % 64, raw.bk % 64);
     if profile == 4 {
+        // (otherwise: anywhere, and three times out of four right next to an enemy home corner — a king that can
+        // capture the unmoved rook, or that stands beside the castling path)
         if raw.wk % 8 != 7 {
             wk = E1;
+        } else if raw.wk / 8 % 8 < 6 {
+            wk = [sq(6, 6), sq(7, 6), sq(6, 7), sq(0, 6), sq(1, 6), sq(1, 7)][(raw.wk / 8 % 8) as usize];
         }
         if raw.bk % 8 != 7 {
             bk = E8;
+        } else if raw.bk / 8 % 8 < 6 {
+            bk = [sq(6, 1), sq(7, 1), sq(6, 0), sq(0, 1), sq(1, 1), sq(1, 0)][(raw.bk / 8 % 8) as usize];
         }
     }
     if profile == 5 {
